@@ -11,14 +11,15 @@ import (
 
 func init() {
 	register(&Prop{ID: "C14", Run: runC14,
-		Technique: "static analysis: dominance / must-pass-through of the graph checks over graph admission and over every effect of Agent.Run (go/ssa). The cycle test's algorithm itself is NOT decided",
+		Technique: "static analysis: dominance / must-pass-through of the graph checks over graph admission and over every effect of Agent.Run; role-based conformance of the cycle test to the in-degree elimination named in the property's anchors (degree table, work list, inverse adjacency maps, verdict) on go/ssa",
 		Decided: []string{
 			"both graph constructors return a graph only when the edge/cycle setup returned nil; that setup returns the lookup error for an unknown dependency name (C01.edges) and returns nil only when the cycle test is false (C14.refusal-propagates)",
 			"Agent.Run reaches precondition evaluation, the already-running probe, history, socket and Schedule/dryRun only on the success edge of graph construction, whose error is returned (C14.graph-first)",
+			"while the cycle test is an in-degree elimination (local degree table drained through a work list): degrees are initialised with len(adjacency[key]); all and only degree-zero nodes of the whole graph seed the work list; each iteration pops exactly the element it reads and runs until the list is empty; every neighbour adjacency'[popped] (the inverse map, roles read off addEdge) is lowered by exactly one and queued exactly when that makes it zero; the verdict is given after the list is drained: cycle iff a non-zero degree remains (or an equivalent count of node events) (C14.kahn)",
 		},
 		NotDec: []string{
-			"the correctness of the cycle test itself (`iff the dependency relation has no cycle`): an algorithmic property over all graphs; matching the shape of the current in-degree elimination would be a frozen-fragment rule that fires on a behaviour-preserving rewrite (e.g. DFS), so no rule is armed for hasCycle's body — a change that makes hasCycle accept some cyclic graphs is NOT detected by this check",
-			"distinctness of step names",
+			"that in-degree elimination decides acyclicity (the textbook argument is assumed, not re-proved) and the correctness of a cycle test of any other shape: a DFS/colouring rewrite is not judged at all (recorded as not applicable in the evidence)",
+			"distinctness of step names; integer overflow of degrees; graphs mutated between edge setup and the test",
 		},
 	})
 }
@@ -124,6 +125,8 @@ func runC14(e *Env) {
 			}
 		}
 	}
+
+	c14Kahn(e, hasCycle, e.FnQuiet(schedRel, "(*ExecutionGraph).addEdge"))
 
 	r.Rule("C14.graph-first", "DCS", "Agent.Run: nothing before the graph was built successfully", 5)
 	run := e.Fn("internal/agent", "(*Agent).Run")
